@@ -163,7 +163,7 @@ const c03Rule = "rapid draws an abstract program (1..15 instructions, labels, EQ
 
 func TestC03(t *testing.T) {
 	hx.Run(t, hx.Prop[asmCase]{
-		ID: "C03", Sub: "meaning", Rule: c03Rule, Checks: hx.Scale(12000, 2400000),
+		ID: "C03", Sub: "meaning", Rule: c03Rule, Checks: hx.Scale(9000, 2400000),
 		Gen: genAsmCase, Judge: judgeAsmCase,
 	})
 }
